@@ -336,13 +336,14 @@ theorem hc_iterations_bound (infos : Array Info) (minReq memLimit maxIter : Nat)
   simp only [VelaVerif.Gen.AllocConst.hcMinIterationsImprove] at this
   omega
 
-/-- **hc_outcomes**: on valid input — ids are positions, at least one range, alignments > 0,
-    `n · max(size + align) ≤ 2^63` — and for every draws list, iteration limit and memory limit, the
-    model of `allocate_live_ranges` has exactly three possible outcomes: it returns addresses
-    (which then satisfy `hc_ok`/`hc_peak`), it raises Python's `ValueError` (`random.randint` on an
-    empty range, see the witness below), or the supplied oracle list is too short.  In particular
-    all three Python loops terminate: the `search` loop (`hc_search_terminates`), the `while not
-    fits` loop of `allocate_lr` (`hcAllocateLr_terminates`) and the predecessor walk of
+/-- **hc_outcomes / hc_no_randint_error**: on valid input — ids are positions, at least one range,
+    alignments > 0, `n · max(size + align) ≤ 2^63` — and for every draws list, iteration limit and
+    memory limit, the model of `allocate_live_ranges` returns addresses (which then satisfy
+    `hc_ok`/`hc_peak`); the only other model outcome is that the supplied oracle list is too short
+    (not a Python outcome).  In particular no `random.randint` is ever called on an empty range
+    (`attempt_bottleneck_fix` returns without reordering when `turn_list` holds fewer than two
+    turns), and all three Python loops terminate: the `search` loop (`hc_search_terminates`), the
+    `while not fits` loop of `allocate_lr` (`hcAllocateLr_terminates`) and the predecessor walk of
     `add_predecessor_turns` (stale predecessors always point to a range allocated in a later run,
     or earlier in the same run, so the walk never revisits a range); `indices[turn]` never raises
     IndexError (`indices` stays a permutation, every stale `turn` is `< n`) and no `-1` address is
@@ -351,16 +352,23 @@ theorem hc_outcomes (lrs : List LR) (hw : WellIds lrs) (hne : lrs ≠ []) (C : N
     (hC : ∀ lr ∈ lrs, lr.size + lr.align ≤ C ∧ 0 < lr.align) (hbound : lrs.length * C ≤ 2 ^ 63)
     (maxIter : Option Nat) (memLimit : Nat) (draws : List Nat) :
     (∃ res, hcAllocate lrs maxIter memLimit draws = .ok res) ∨
-    hcAllocate lrs maxIter memLimit draws = .error .value ∨
     hcAllocate lrs maxIter memLimit draws = .error .draws := by
   have h := hcAllocate_outcomes lrs hw hne C hC hbound maxIter memLimit draws
   cases hr : hcAllocate lrs maxIter memLimit draws with
   | ok res => exact Or.inl ⟨res, rfl⟩
   | error e =>
     rw [hr] at h
-    rcases h with h | h
-    · right; left; rw [h]
-    · right; right; rw [h]
+    right; rw [h]
+
+/-- … in particular never Python's ValueError -/
+theorem hc_no_randint_error (lrs : List LR) (hw : WellIds lrs) (hne : lrs ≠ []) (C : Nat)
+    (hC : ∀ lr ∈ lrs, lr.size + lr.align ≤ C ∧ 0 < lr.align) (hbound : lrs.length * C ≤ 2 ^ 63)
+    (maxIter : Option Nat) (memLimit : Nat) (draws : List Nat) :
+    hcAllocate lrs maxIter memLimit draws ≠ .error .value := by
+  intro h
+  rcases hc_outcomes lrs hw hne C hC hbound maxIter memLimit draws with ⟨res, hr⟩ | hr
+  · rw [hr] at h; cases h
+  · rw [hr] at h; cases h
 
 /-- **hc_perm**: every reordering step (`attempt_bottleneck_fix`, one or two swaps) keeps `indices` a
     permutation of `0..n-1`, in every state the search loop can be in (`FixPre`). -/
@@ -371,16 +379,19 @@ theorem hc_perm (lrs : List LR) (hw : WellIds lrs) (dyn : Array Dyn) (run : Nat 
     ind'.Perm (List.range lrs.length) :=
   (sat_of_eq (hcFix_sat lrs hw dyn run pre indices hperm stuck draws)).2 _ h
 
-/-- `hc_no_randint_error` is **false of the unchanged code**: `attempt_bottleneck_fix` can reach
-    `random.randint(0, len(turn_list) - 2)` with a single entry in `turn_list` (stale `turn`
-    numbers left by an aborted `allocate_indices` coincide) and dies with ValueError.  Five valid
-    ranges and 14 draws suffice (known finding `hillclimb:…:empty-range`; the harness replays two
-    sets on which CPython's own `seed(1)` generator produces such a sequence). -/
-theorem hc_no_randint_error_witness :
+/- Before the repair (`fixed:` entry in known_findings.txt) `hc_no_randint_error` was false:
+   `attempt_bottleneck_fix` reached `random.randint(0, len(turn_list) - 2)` with a single entry in
+   `turn_list` (stale `turn` numbers left by an aborted `allocate_indices` coincide) and died with
+   ValueError; the model of that code returned `Err.value` on
+     hcAllocate [⟨1,1,80,64,0,0⟩, ⟨4,4,48,128,1,1⟩, ⟨3,3,32,128,2,2⟩, ⟨2,4,80,32,3,3⟩, ⟨1,2,32,128,4,4⟩]
+       none (2^32) [15, 1, 0, 80, 0, 0, 17, 0, 1, 23, 0, 0, 56, 0]
+   (former theorem `hc_no_randint_error_witness`, `decide +kernel`).  On the same input the repaired
+   model skips the reordering in the fifth iteration and goes on (the 14 draws then run out): -/
+example :
     (match hcAllocate [⟨1, 1, 80, 64, 0, 0⟩, ⟨4, 4, 48, 128, 1, 1⟩, ⟨3, 3, 32, 128, 2, 2⟩,
         ⟨2, 4, 80, 32, 3, 3⟩, ⟨1, 2, 32, 128, 4, 4⟩] none (2 ^ 32)
         [15, 1, 0, 80, 0, 0, 17, 0, 1, 23, 0, 0, 56, 0] with
-      | .error .value => true
+      | .error .draws => true
       | _ => false) = true := by decide +kernel
 
 /-! ## Non-vacuity -/
